@@ -22,6 +22,8 @@ Sub-spaces (all enumerated completely):
   intervals  number 1..14 x quality x direction
   ticks      seconds grid k/1000 x ppq x mpq, scalars (int, float, numpy scalar) and arrays
              (float64, int64, int32, 2-D, strided, empty), both directions
+  ticks-large the same over a magnitude dimension: grid blocks shifted by 10 min .. 24 h, blocks around the times whose tick
+             value is 2^15 .. 2^32, whole performances of 30 .. 2600 times (ppq up to 15360, tick values up to 2.2e9)
   tables     agreement between the independent constant tables
   key-pairs  call histories of length 2 of the key-name conversions, each pair in a fresh process
   key-chains any first query followed by all queries; every ordered pair of queries adjacent inside one history
@@ -70,6 +72,9 @@ ASSUMPTIONS = [
     "undefined class (e.g. P3, M4) or direction must not yield a semitone value; semitones is unsigned (direction ignored)",
     "frequency_to_midi_pitch maps a frequency within 40 cents of an equal-tempered pitch to that pitch",
     "tick arrays of dtype int32 are inputs of midi_ticks_to_seconds (performance note arrays store ticks as i4)",
+    "the tick conversion is claimed for any time a performance can have (here up to 24 h at up to 15360 ppq, tick values up to 2^32): "
+    "the result is the integer of the formula as int / int64 whatever its size; int32 forms of a tick value are only used where it fits "
+    "int32; float tolerances scale with the magnitude (half-way window max(1e-7, 1e-15*ticks), seconds within 1e-12 relative)",
     "results of the key conversions are functions of their arguments: what was asked earlier in the same process must not "
     "change a name or turn a rejection into a name (histories start from the state of the library right after import, "
     "reproduced by forking a process that has imported partitura and called nothing)",
@@ -802,14 +807,19 @@ def ev_ticks(case, res, cx):
     import partitura.utils.music as M
 
     ppq, mpq, lo, hi, pform = case["ppq"], case["mpq"], case["lo"], case["hi"], case["pform"]
+    # magnitude dimension: the grid times are (off + mul*i)/1000 s for i in lo..hi-1 (off=0, mul=1: the plain grid)
+    off, mul = case.get("off", 0), case.get("mul", 1)
     P, Q = num(ppq, pform), num(mpq, pform)
-    ks = list(range(lo, hi))
+    ks = [off + mul * i for i in range(lo, hi)]
     ctxd = "ppq=%r mpq=%r (%s)" % (ppq, mpq, pform)
     n_states = 0
     exp_ticks = []
     for k in ks:
         x = Fraction(10 ** 6 * ppq * k, 1000 * mpq)
-        exp_ticks.append(round_readings(x))
+        # half-way window: 1e-7 ticks, or the float64 error of the three operations on a time that is itself a rounded
+        # float (< 5 * 2^-53 relative) where that is larger (tick values beyond 10^8)
+        exp_ticks.append(round_readings(x, max(Fraction(1, 10 ** 7), abs(x) / 10 ** 15)))
+    I32 = 2 ** 31
 
     def check_tick(v, readings, label, d, want_py=True):
         if isinstance(v, bool) or not is_intlike(v):
@@ -852,7 +862,10 @@ def ev_ticks(case, res, cx):
             j = readings[0]
         sec_ref = Fraction(j * mpq, 10 ** 6 * ppq)
         half_tick = Fraction(mpq, 2 * 10 ** 6 * ppq)
-        for fname, jv in (("int", j), ("npint", np.int64(j)), ("npint32", np.int32(j)), ("float", float(j))):
+        jforms = [("int", j), ("npint", np.int64(j)), ("float", float(j))]
+        if -I32 <= j < I32:  # a tick beyond the int32 range has no int32 form
+            jforms.insert(2, ("npint32", np.int32(j)))
+        for fname, jv in jforms:
             d = "%s ticks=%r (%s)" % (ctxd, j, fname)
             ok, s = cx.call("ticks-to-seconds", M.midi_ticks_to_seconds, jv, Q, P)
             if not ok:
@@ -863,7 +876,7 @@ def ev_ticks(case, res, cx):
             if not close(s, sec_ref):
                 res.fail("ticks-to-seconds", expected=sec_ref, observed=s, where="midi_ticks_to_seconds", detail=d)
                 continue
-            if abs(Fraction(float(s)) - Fraction(k, 1000)) > half_tick * (1 + Fraction(1, 10 ** 6)) + Fraction(1, 10 ** 12):
+            if abs(Fraction(float(s)) - Fraction(k, 1000)) > half_tick * (1 + Fraction(1, 10 ** 6)) + Fraction(max(1000, abs(k)), 10 ** 15):
                 res.fail("ticks-and-back", expected="within half a tick of %r s" % (k / 1000.0,), observed=s,
                          where="midi_ticks_to_seconds(seconds_to_midi_ticks(.))", detail=d)
             ok, j2 = cx.call("seconds-inverts-ticks", M.seconds_to_midi_ticks, s, Q, P)
@@ -901,12 +914,12 @@ def ev_ticks(case, res, cx):
     arrays.append(("empty", np.array([], dtype=float), []))
     ki = [k for k in ks if k % 1000 == 0]
     if ki:
-        ei = [exp_ticks[k - lo] for k in ki]
+        ei = [rd for k, rd in zip(ks, exp_ticks) if k % 1000 == 0]
         arrays.append(("int64", np.array([k // 1000 for k in ki], dtype=np.int64), ei))
         arrays.append(("int32", np.array([k // 1000 for k in ki], dtype=np.int32), ei))
     for aname, arr, rd in arrays:
         keep = arr.copy()
-        d = "%s array=%s[%d] seconds %r..%r" % (ctxd, aname, arr.size, lo / 1000.0, (hi - 1) / 1000.0)
+        d = "%s array=%s[%d] seconds %r..%r" % (ctxd, aname, arr.size, ks[0] / 1000.0, ks[-1] / 1000.0)
         ok, out = cx.call("seconds-to-ticks-array", M.seconds_to_midi_ticks, arr, Q, P)
         if ok:
             check_tick_array(arr, out, rd, "seconds_to_midi_ticks(array)", d)
@@ -918,11 +931,14 @@ def ev_ticks(case, res, cx):
 
     js = [rd[0] for rd in exp_ticks]
     sec_refs = [float(Fraction(j * mpq, 10 ** 6 * ppq)) for j in js]
-    tick_arrays = [("int64", np.array(js, dtype=np.int64)), ("int32", np.array(js, dtype=np.int32)),
-                   ("float64", np.array(js, dtype=float)), ("int64-strided", np.array(js, dtype=np.int64)[::3]),
-                   ("empty", np.array([], dtype=np.int64))]
+    fits32 = all(-I32 <= j < I32 for j in js)  # tick values beyond the int32 range: the int32 forms do not exist
+    tick_arrays = [("int64", np.array(js, dtype=np.int64))]
+    if fits32:
+        tick_arrays.append(("int32", np.array(js, dtype=np.int32)))
+    tick_arrays += [("float64", np.array(js, dtype=float)), ("int64-strided", np.array(js, dtype=np.int64)[::3]),
+                    ("empty", np.array([], dtype=np.int64))]
     if len(js) % 2 == 0 and len(js) >= 4:
-        tick_arrays.append(("int32-2d", np.array(js, dtype=np.int32).reshape(2, -1)))
+        tick_arrays.append(("int32-2d" if fits32 else "int64-2d", np.array(js, dtype=np.int32 if fits32 else np.int64).reshape(2, -1)))
     for aname, arr in tick_arrays:
         keep = arr.copy()
         refs = np.array(sec_refs[::3] if aname.endswith("strided") else ([] if aname == "empty" else sec_refs), dtype=float).reshape(arr.shape)
@@ -951,6 +967,9 @@ def ev_ticks(case, res, cx):
     res.traces = max(1, n_states)
     nt = sum(1 for rd in exp_ticks if len(rd) > 1)
     res.outcome = "ticks:%s:ties=%s" % (pform, "yes" if nt else "no")
+    if "off" in case or "mul" in case:
+        top = max(abs(rd[0]) for rd in exp_ticks)
+        res.outcome += ":%s:max-tick<2^%d" % (case.get("fam", "large"), next(b for b in (16, 24, 31, 32, 64) if top < 2 ** b))
     res.nontrivial = True
 
 
@@ -2555,6 +2574,71 @@ def _tick_more(kmax):
     return gen
 
 
+# magnitude dimension of the tick conversion: long performances and fine tick resolutions
+LARGE_PPQ = [1, 480, 960, 10080, 15360]
+LARGE_MPQ = [250000, 400000, 500000, 600000, 1000000]
+LARGE_OFF_S = [600, 3600, 9000, 36000, 86400, -9000]  # 10 min .. 24 h, and 2.5 h before the reference point
+LARGE_MUL = [1, 37]
+LARGE_T = [2 ** 15, 2 ** 16, 2 ** 24, 2 ** 31, 2 ** 32]
+LARGE_MAX_S = 86400
+LONG_N = [30, 300, 1100, 2600]
+LONG_STEP = [371, 3461, 13841]  # ms between consecutive times: 2600 points span 16 min, 2.5 h, 10 h
+LONG_CORE = [(480, 500000), (960, 400000), (15360, 500000)]
+LONG_BLOCKS = 10
+
+
+def _tick_large_cases(tier, seed):
+    full = tier != "quick"
+
+    def gen():
+        # the long cases are spread evenly between the others (work items are runs of consecutive cases)
+        short, long_ = [], []
+        for c in gen0():
+            (long_ if c["fam"] == "long" else short).append(c)
+        every = max(1, len(short) // max(1, len(long_)))
+        for j, c in enumerate(short):
+            yield c
+            if j % every == every - 1 and long_:
+                yield long_.pop(0)
+        for c in long_:
+            yield c
+
+    def gen0():
+        i = 0
+        # (offset) the blocks of 250 grid times of the small family shifted by a large offset, consecutive or 37 ms apart
+        for ppq in LARGE_PPQ:
+            for mpq in LARGE_MPQ:
+                for off_s in LARGE_OFF_S:
+                    combos = [(pf, m) for pf in PFORMS for m in LARGE_MUL] if full else [(PFORMS[i % 3], LARGE_MUL[i % 2])]
+                    i += 1
+                    for pf, m in combos:
+                        # i = 100 is the whole second off_s (integer forms of the time)
+                        yield dict(k="ticks", fam="offset", ppq=ppq, mpq=mpq, lo=0, hi=BLOCK, off=off_s * 1000 - 100 * m, mul=m, pform=pf)
+        # (threshold) 250 consecutive grid times around the time whose tick value is a power of two, where that time is within 24 h
+        for ppq in LARGE_PPQ:
+            for mpq in LARGE_MPQ:
+                for T in LARGE_T:
+                    kc = (T * mpq) // (1000 * ppq)  # ms
+                    if kc > LARGE_MAX_S * 1000:
+                        continue
+                    forms = PFORMS if full else [PFORMS[i % 3]]
+                    i += 1
+                    for pf in forms:
+                        yield dict(k="ticks", fam="threshold", ppq=ppq, mpq=mpq, lo=0, hi=BLOCK, off=kc - BLOCK // 2, mul=1, pform=pf)
+        # (long) one whole performance: N times from 0, a fixed step apart
+        b = seed % LONG_BLOCKS
+        for ppq in LARGE_PPQ:
+            for mpq in LARGE_MPQ:
+                for n in LONG_N:
+                    for step in LONG_STEP:
+                        pf = PFORMS[i % 3]
+                        i += 1
+                        c = dict(k="ticks", fam="long", ppq=ppq, mpq=mpq, lo=0, hi=n, off=0, mul=step, pform=pf)
+                        if full or ((ppq, mpq) in LONG_CORE and n == LONG_N[-1]) or block_of(c, LONG_BLOCKS) == b:
+                            yield c
+    return gen
+
+
 def spaces(tier, seed):
     sp = [
         Space("spelling", _spelling_cases, True,
@@ -2639,6 +2723,16 @@ def spaces(tier, seed):
     sp.append(Space("ticks-negative", _tick_cases_negative(PPQ_CORE + [1000000 // 1000], MPQ_CORE + [1000000], 1000 if tier == "quick" else 5000), True,
                     "negative times t=k/1000 s, k=-%d..-1 x ppq {1,96,480,960,1000} x mpq {250000,500000,600000,1000000}: the same clauses "
                     "(rounding is to nearest for negative values too; scalar and array branches agree)" % (1000 if tier == "quick" else 5000)))
+    sp.append(Space("ticks-large", _tick_large_cases(tier, seed), True,
+                    "magnitude dimension of the tick conversion (same clauses, scalars and arrays, both directions) over ppq {1,480,960,10080,15360} x "
+                    "mpq {250000,400000,500000,600000,1000000}: (offset) the block of 250 grid times shifted to 10 min, 1 h, 2.5 h, 10 h, 24 h and "
+                    "-2.5 h, grid step {1, 37} ms%s; (threshold) the 250 consecutive ms around the time whose tick value is 2^15, 2^16, 2^24, 2^31, 2^32, for "
+                    "every pair where that time is within 24 h (77 of 125)%s; (long) one whole performance of N in {30,300,1100,2600} times from 0, "
+                    "{371, 3461, 13841} ms apart (up to 10 h; tick values up to 2.2e9)%s. int32 forms of a tick only where it fits int32"
+                    % ((" x parameter form {int,float,numpy int}", " x parameter form", ", parameter form cycled") if tier != "quick" else
+                       (", step and parameter form (int/float/numpy int) cycled over consecutive cases", ", parameter form cycled",
+                        ", parameter form cycled: N=2600 for ppq/mpq in {480/500000, 960/400000, 15360/500000} and of all 300 the hash block %d of %d"
+                        % (seed % LONG_BLOCKS, LONG_BLOCKS)))))
     if tier == "quick":
         sp.append(Space("ticks-core", _tick_cases(PPQ_CORE, MPQ_CORE, 10000, False), True,
                         "t=k/1000 s, k=0..9999 (blocks of 250) x ppq {1,96,480,960} x mpq {250000,500000,600000}; parameter form "
